@@ -429,7 +429,7 @@ Fixpoint eval_with (idx : val -> val -> val * list diag)
             end
         end in
       let '(vals, mks, known, ds) := fold_left step_item items ([], [], true, []) in
-      if negb known then (dyn_val, ds)
+      if negb known then (with_marks dyn_val (marks_unions mks), ds)
       else (with_marks (VObj vals) (marks_unions mks), ds)
 
   | EUn op e' =>
@@ -665,10 +665,10 @@ Fixpoint eval_with (idx : val -> val -> val * list diag)
                   if has_errors xds then inr (dyn_val, xds)
                   else
                   match type_of xv with
-                  | TDyn => if is_null xv then inr (dyn_val, xds ++ [derr S_InvalidExpand []]) else inr (dyn_val, xds)
+                  | TDyn => if is_null xv then inr (dyn_val, xds ++ [derr S_InvalidExpand []]) else inr (with_same_marks dyn_val xv, xds)
                   | TTuple _ | TList _ | TSet _ =>
                       if is_null xv then inr (dyn_val, xds ++ [derr S_InvalidExpand []])
-                      else if negb (is_known xv) then inr (dyn_val, xds)
+                      else if negb (is_known xv) then inr (with_same_marks dyn_val xv, xds)
                       else
                       let '(xu, xm) := unmark xv in
                       inl (rev init_rev ++ map (fun kv => ELit (with_marks (snd kv) xm)) (elements xu), xds)
@@ -712,7 +712,7 @@ Fixpoint eval_with (idx : val -> val -> val * list diag)
   | EFor kvar vvar coll keye vale conde group =>
       let '(cv0, ds0) := ev c anon coll in
       if is_null cv0 then (dyn_val, ds0 ++ [derr S_IterNull []])
-      else if ty_eqb (type_of cv0) TDyn then (dyn_val, ds0)
+      else if ty_eqb (type_of cv0) TDyn then (with_same_marks dyn_val cv0, ds0)
       else
       let '(cv, cmk) := unmark cv0 in
       if negb (can_iterate cv) then (dyn_val, ds0 ++ [derr S_IterNonIterable [FTy (type_of cv)]])
